@@ -30,3 +30,16 @@ PROPS['C15'] = dict(
              'returns once entity is final': 'P',
              'timeout': 'P', 'returned states are the actual states': 'P',
              '"shortly" = one 0.1 s poll; time.sleep dropped': 'A'})
+
+PROPS['C06'] = dict(
+    level='proof',
+    assumptions=['A2', 'A4', 'A5', 'A7', 'A9', 'A10', 'A11'],
+    trusted_base=['ru.dict_merge (radical.utils): assumed not to raise and to touch only _task_info'],
+    explanation='state progression function (functional spec), Task._update '
+                '(sticky final states, single steps), TaskManager._update_tasks '
+                '(no batch raises; unnamed tasks untouched; callbacks strictly '
+                'increasing per task, within (old state, new state])',
+    clauses={'only forward / each state at most once / gaps filled': 'P',
+             'final states never change': 'P',
+             'contradictory notification does not stop the batch': 'P',
+             'callback dispatch (_task_cb try/except around user callbacks)': 'A'})
